@@ -93,6 +93,7 @@ var streamReaderPool = sync.Pool{
 // This StreamReader must be closed using `Close()`
 func NewStreamReader(r io.Reader) *StreamReader {
 	sr := streamReaderPool.Get().(*StreamReader)
+	verifPool("sreader", "get", sr, sr.reader == nil && sr._seeker == nil)
 	sr.reader = r
 	sr.discard = sr._discardStream
 	if seeker, ok := r.(io.Seeker); ok {
@@ -107,6 +108,7 @@ func NewStreamReader(r io.Reader) *StreamReader {
 func returnStreamReader(sr *StreamReader) {
 	sr.reader = nil
 	sr._seeker = nil
+	verifPool("sreader", "put", sr, sr.reader == nil && sr._seeker == nil)
 	streamReaderPool.Put(sr)
 }
 
